@@ -238,6 +238,8 @@ def run(ctx):
                     ctx.violation(kk, "quad of an EditableModule method, n=%s, bck n=%s, limits %s: %s" % (nf_, nb_, lims, why), {"n": nf_, "nb": nb_, "lims": lims})
     from vlib import gradpattern
     ctx.replayed = len(states) + gradpattern.replay(ctx, ["quad"], "quad")
+    from vlib import objstate
+    ctx.replayed += objstate.replay(ctx, ["quad"], "quad")
     from vlib import bckhistory
     ctx.replayed += bckhistory.replay(ctx, ["quad"], "quad", 3)
     ctx.notes.update(cases=n)
